@@ -339,7 +339,8 @@ theorem wf_cases {v : Bytes} (h : Wf v) : Valid v ∨ v = [DOT] := by
       simp [Valid, root, startsWithDot, hb]
     · simp [Valid, root, startsWithDot, ha]
 
-theorem not_valid_dot : ¬ Valid [DOT] := by decide
+theorem not_valid_dot : ¬ Valid [DOT] := by
+  intro h; exact h.1 (by simp [root, startsWithDot])
 
 theorem lo_dot : lo [DOT] = [0] := by decide
 theorem hi_dot : hi [DOT] = [2] := by decide
